@@ -162,13 +162,21 @@ def owners_of(ctx, clsqual):
 
 
 def consts_of(ctx, clsqual, fn=None):
-    """class-level constants of a repository class (and of its repository bases), also under their mangled names"""
+    """class-level constants of a repository class (and of its repository bases), also under their mangled names.  One dictionary per
+    class and name table: the class object and all its instances see the SAME values (a class-level list mutated through one of them
+    is mutated for all, a class attribute rebound through the class is rebound for all), as in a Python process"""
+    shared = fn.setdefault('__class_consts__', {}) if isinstance(fn, dict) else None
+    if shared is not None and clsqual in shared:
+        return shared[clsqual]
     out = {}
+    if shared is not None:
+        shared[clsqual] = out
     c = ctx.prog.cls(clsqual)
     for b in c.bases:
         for q, ci in ctx.prog.classes.items():
             if ci.name == b.split('.')[-1] and ci is not c:
-                out.update(consts_of(ctx, q, fn))
+                for k_, v_ in consts_of(ctx, q, fn).items():
+                    out.setdefault(k_, v_)
     for k, v in c.consts.items():
         try:
             val = ast.literal_eval(v)
@@ -240,22 +248,38 @@ class ClassRef(orders.PyStub):
         object.__setattr__(self, '_qual', clsqual)
         object.__setattr__(self, '_fn', fn)
         object.__setattr__(self, 'isa', ('type',))
-        for k, v in consts_of(ctx, clsqual, fn).items():
-            try:
-                setattr(self, k, v)
-            except Exception:
-                pass
+        object.__setattr__(self, '_consts', consts_of(ctx, clsqual, fn))
         for name, node in methods_of(ctx, clsqual).items():
             params = [a.arg for a in node.args.args]
             static = any(isinstance(d, ast.Name) and d.id in ('staticmethod',) for d in node.decorator_list) or not params or params[0] not in ('self', 'cls')
             if any(isinstance(d, ast.Name) and d.id == 'classmethod' for d in node.decorator_list) and params:
                 # a class method reached through the class: its first parameter is the class object itself
-                setattr(self, name, (lambda node_: lambda *a, **k: orders.make_func(node_, fn)(self, *a, **k))(node))
+                object.__setattr__(self, name, (lambda node_: lambda *a, **k: orders.make_func(node_, fn)(self, *a, **k))(node))
             elif static:
-                setattr(self, name, orders.make_func(node, fn))
+                object.__setattr__(self, name, orders.make_func(node, fn))
             elif name != '__init__':
                 # an instance method reached through the class, with the receiver passed explicitly: Track.helper(self, ...)
-                setattr(self, name, self._unbound(name))
+                object.__setattr__(self, name, self._unbound(name))
+
+    def __getattr__(self, k):
+        # (only reached when the class object has no method of that name) a class-level constant: read from the shared dictionary
+        consts = object.__getattribute__(self, '__dict__').get('_consts')
+        if consts is not None and k in consts:
+            return consts[k]
+        raise AttributeError(k)
+
+    def __setattr__(self, k, v):
+        # Class.attr = value: rebinds the class attribute for the class and every instance
+        consts = self.__dict__.get('_consts')
+        if consts is None:
+            object.__setattr__(self, k, v)
+            return
+        consts[k] = v
+        cname = self._ctx.prog.cls(self._qual).name
+        if k.startswith('__') and not k.endswith('__'):
+            consts['_' + cname.lstrip('_') + k] = v
+        elif k.startswith('_' + cname.lstrip('_') + '__'):
+            consts[k[len('_' + cname.lstrip('_')):]] = v
 
     def _unbound(self, name):
         methods = methods_of(self._ctx, self._qual)
